@@ -42,7 +42,9 @@ def main():
             ("MCDevMode", "DevMode_neg_noexprs.cfg", "NoRebuildMeansFaithful", "HasChanged without expression list"),
             ("MCDevMode", "DevMode_neg_texthash.cfg", "NoRebuildMeansFaithful", "text-file hash over the plain concatenation of the literals"),
             ("DevModeText", "DevModeText_neg_backslash.cfg", "TextRoundTrip", "backslash not escaped"),
-            ("DevModeText", "DevModeText_neg_newline.cfg", "TextRoundTrip", "newline not escaped")]
+            ("DevModeText", "DevModeText_neg_newline.cfg", "TextRoundTrip", "newline not escaped"),
+            ("MCDevModePath", "DevModePath_neg_reader.cfg", "WriterReaderAgree", "the reader does not resolve the .templ name again"),
+            ("MCDevModePath", "DevModePath_neg_writer.cfg", "WriterReaderAgree", "the writer hashes the name it was given")]
     # emission (universe, items, edits without rebuild): all sink kinds with single edits, edit sequences on a smaller
     # universe, and static text moved across Go code (needs 4 items)
     if thorough:
@@ -56,6 +58,7 @@ def main():
                          workers=12 if thorough else 4, timeout=1500, xmx="8g") for choices, n in runs]
         fneg = [ex.submit(vlib.tlc, mod, name, workers=1, timeout=600) for mod, name, _, _ in negs]
         ftxt = ex.submit(vlib.tlc, "DevModeText", "DevModeText_mc.cfg", workers=1, timeout=600)
+        fpath = ex.submit(vlib.tlc, "MCDevModePath", "DevModePath_mc.cfg", workers=1, timeout=600)
         fgen = [ex.submit(vlib.tlc, "MCDevMode", "gen.cfg", files={"gen.cfg": cfg_text("DevMode_gen.cfg", MaxItems=gi, Choices=gc, MaxEdits=ge)},
                           workers=1, timeout=2400, xmx="8g") for gc, gi, ge in gens]
         for (choices, n), f in zip(runs, fmc):
@@ -75,6 +78,13 @@ def main():
         text_cases = txt.tagged("CASE")
         if len(text_cases) != txt.distinct:
             raise vlib.InfraError("DevModeText printed %d of %d cases" % (len(text_cases), txt.distinct))
+        pth = fpath.result()
+        if not pth.ok:
+            raise vlib.InfraError("DevModePath violates %s" % pth.violated)
+        ck.add_tlc(pth, "DevModePath_mc (path shapes: plain, relative, .., symlinked file / directory / both / chain)")
+        path_cases = pth.tagged("PATH")
+        if len(path_cases) != pth.distinct or len(path_cases) < 8:
+            raise vlib.InfraError("DevModePath printed %d of %d shapes" % (len(path_cases), pth.distinct))
         edges = []
         for (gen_choices, gen_items, gen_edits), f in zip(gens, fgen):
             gen = f.result()
@@ -105,10 +115,11 @@ def main():
     work = os.path.join(hd, work_rel)
     vlib.write_ndjson(os.path.join(sc, "edges.ndjson"), uniq)
     vlib.write_ndjson(os.path.join(sc, "texts.ndjson"), text_cases)
+    vlib.write_ndjson(os.path.join(sc, "paths.ndjson"), path_cases)
     max_cases = 20000 if thorough else 2400
     max_unfaithful = 15000 if thorough else 1200
     max_boundary = 0 if thorough else 600         # 0 = all
-    conf = {"edges": os.path.join(sc, "edges.ndjson"), "texts": os.path.join(sc, "texts.ndjson"),
+    conf = {"edges": os.path.join(sc, "edges.ndjson"), "texts": os.path.join(sc, "texts.ndjson"), "paths": os.path.join(sc, "paths.ndjson"),
             "work": work, "work_rel": work_rel, "seed": ck.seed, "max_cases": max_cases, "max_unfaithful": max_unfaithful, "max_boundary": max_boundary, "pkg_size": 400,
             "corrupt": corrupt}
     cpath = os.path.join(sc, "c16.json")
@@ -121,6 +132,12 @@ def main():
         raise vlib.InfraError("harness replayed %d of %d selected transitions" % (s["edges_replayed"], s["edges_selected"]))
     if s["edges_emitted"] != len(uniq):
         raise vlib.InfraError("harness read %d of %d transitions" % (s["edges_emitted"], len(uniq)))
+    if s["path_shapes"] != len(path_cases) or (s["fails"] == 0 and s["path_shapes_checked"] != len(path_cases)):
+        raise vlib.InfraError("only %d of %d path shapes were rendered in development mode" % (s["path_shapes_checked"], len(path_cases)))
+    if s["path_shape_name_drift"]:
+        ck.notes.append("model drift: for %d path shapes the generator's text file is not the one of the specification's canonical path" % s["path_shape_name_drift"])
+    ck.set("path_shapes_checked", s["path_shapes_checked"])
+    ck.set("path_shapes", [c["name"] for c in path_cases])
     if s["dev_equals_normal_checked"] < s["templates"] + s["text_cases"] - s["text_cases_rejected_by_parser"] - s["accepted_not_generated"]:
         raise vlib.InfraError("development-mode rendering was not compared for every template")
     if s["text_cases_rejected_by_parser"] > len(text_cases) // 2:
